@@ -883,3 +883,29 @@ pub fn pb_btree_map_w_long<const WHICH: u8>() {
     kani::cover!(true, "reached end");
     core::mem::forget(m);
 }
+
+/// hash map<int32, fixed64> with one entry (AHashMap; the random hasher state is stubbed to
+/// fixed seeds because RandomState::new reaches the getrandom syscall)
+#[cfg(kani)]
+pub fn pb_hash_map_roundtrip<const WHICH: u8>() {
+    let tag = 4u32;
+    let k: i32 = kani::any();
+    let v: u64 = kani::any();
+    let mut m: pilota::AHashMap<i32, u64> = pilota::AHashMap::default();
+    m.insert(k, v);
+    let mut arr = [0u8; 48];
+    let n;
+    let el;
+    {
+        let mut w: &mut [u8] = &mut arr[..];
+        enc::hash_map::encode(enc::int32::encode::<&mut [u8], i32>, enc::int32::encoded_len::<i32>, enc::fixed64::encode, enc::fixed64::encoded_len, tag, &m, &mut w);
+        el = enc::hash_map::encoded_len(enc::int32::encoded_len::<i32>, enc::fixed64::encoded_len, tag, &m);
+        n = 48 - w.len();
+    }
+    chk!(WHICH == C05, n == el, "C05: encoded_len equals bytes written (hash map)");
+    kani::cover!(true, "reached end");
+    core::mem::forget(m);
+}
+pub fn rs_stub() -> ahash::RandomState {
+    ahash::RandomState::with_seeds(1, 2, 3, 4)
+}
